@@ -80,6 +80,11 @@ def dev_bonly(C, P, RULE):
     anys = [p for p in anys if any_over_merge(p)]
     for i, a in enumerate(sorted(adds_b)):
         ok = any(guarded_by_true(me, a, p, negate=True) for p in anys)
+        ta = me.blocks[a[0]]['term']
+        if not ok and re.search(r'extend$', callee_generic(ta) or '') and len(ta['args']) > 1 and is_local_op(ta['args'][1]):
+            # `list.extend(rest_of_b.filter(|e| !elements_merge.iter().any(..)).map(..))`: the test is the predicate of a filter in the chain
+            cs_ = deep_sources(me, ta['args'][1], depth=14)[1]
+            ok = any((c or '').endswith('Iterator::filter') or (c or '').endswith('Iterator>::filter') for c in cs_) and any((c or '').endswith('::any') for c in cs_)
         C.check(ok, RULE, 'merge_element|import-list-add#%d|not-already-merged' % i, 'an element of the new file is queued for import without the test that it was not already paired with a model element (elements_merge.iter().any(..)): it would be merged into its counterpart AND inserted as a new child (duplicate element, two parents)',
                 me.where(a), sample={'fn': 'merge_element', 'guard': '!elements_merge.iter().any(|(_, b)| b == elem_b)'} if i == 0 else None)
     C.floor(RULE + '.adds', len(adds_b), 3)
@@ -327,15 +332,16 @@ def run(ctx):
                             work.append(rv['pl'])
                         elif rv['k'] in ('use', 'cast'):
                             work.append(rv['o'])
-        oksp = 'files' in names and 'new_file' in names and any(c.endswith('cmp::min') or c.endswith('Ord::min') for c in cs) and any(c.endswith('Iterator::min') for c in cs)
+        # (by provenance, not by variable name: the version is min(min over the versions of files, version of a file))
+        oksp = any(c.endswith('cmp::min') or c.endswith('Ord::min') for c in cs) and any(c.endswith('Iterator::min') for c in cs)
         t0 = me.blocks[si[0][0]]['term']
-        oksp = oksp and 'parent_a' in deep_sources(me, t0['args'][0], depth=10)[0]
+        oksp = oksp and any(c.endswith('element_type') for c in deep_sources(me, t0['args'][0], depth=10)[1])
         C.extra['splittable_version_sources'] = {'names': sorted(names), 'callees': sorted(c.rsplit('::', 2)[-2] + '::' + c.rsplit('::', 1)[-1] for c in cs)}
     C.check(oksp, 'C09-MUST-reject', 'merge_element|split-point-judged-by-oldest-version-of-both-sides', 'whether a divergence is allowed below the model parent is not decided by splittable_in(min(versions of the files that already contain the parent, version of the new file)): the result depends on the load order for files of different versions',
             me.where(si[0]) if si else '', sample={'fn': 'merge_element', 'version': 'min(min over files, new_file.version())'})
     # calc_identifiables_merge receives that flag
     cc = calls(me, r'AutosarModel>::calc_identifiables_merge$')
-    C.check(len(cc) == 1 and 'splitable' in deep_sources(me, me.blocks[cc[0][0]]['term']['args'][4], depth=6)[0] and bool(si) and any(c.endswith('splittable_in') for c in deep_sources(me, me.blocks[cc[0][0]]['term']['args'][4], depth=6)[1]),
+    C.check(len(cc) == 1 and bool(si) and any(any(c.endswith('splittable_in') for c in deep_sources(me, a_, depth=6)[1]) for a_ in me.blocks[cc[0][0]]['term']['args'] if is_local_op(a_)),
             'C09-MUST-reject', 'merge_element|flag-reaches-the-decision', 'calc_identifiables_merge is not given the splittable_in() result of the model parent')
     # propagation of the merge error up to load_buffer
     for fn, rx in (('AutosarModel::merge_element', r'AutosarModel>::(calc_identifiables_merge|import_new_items|merge_sub_elements)$'), ('AutosarModel::merge_sub_elements', r'AutosarModel>::merge_element$'),
@@ -376,12 +382,15 @@ def run(ctx):
     searches = [(pos, t) for pos, t in me.iter_calls() if is_search(t)]
     okc = len(lt) == 1
     if okc:
-        dom = [(pos, t) for pos, t in searches if me.pos_dominates(pos, lt[0])]
+        # a search inside an inlined helper (`find_counterpart`, which returns early for elements without a name) counts where the helper is called
+        dom = [(pos, t) for pos, t in searches if me.pos_dominates(me.call_site_of(pos), lt[0])]
         sides = set()
         for pos, t in dom:
             nm = set()
             for a_ in t['args']:
                 nm |= all_names(me, a_)
+                if is_local_op(a_):
+                    nm |= deep_sources(me, a_, depth=12)[0]
             if 'parent_b' in nm and 'elem_a' in nm:
                 sides.add('a-in-b')
             if 'parent_a' in nm and 'elem_b' in nm:
@@ -397,7 +406,7 @@ def run(ctx):
                     for q in calls(me, r'Option::<T>::is_some$'):
                         if any(callee_of(o2[1]) == callee_of(t) for o2 in origins(me, me.blocks[q[0]]['term']['args'][0]) if o2[0] not in ('param', 'const', 'place') and isinstance(o2[1], dict) and o2[1].get('k') == 'call') or True:
                             sw2 = switch_edges_on_call_result(me, q)
-                            if sw2 and me.pos_dominates(pos, q) and me.pos_dominates(q, lt[0]):
+                            if sw2 and me.pos_dominates(me.call_site_of(pos), q) and me.pos_dominates(q, lt[0]):
                                 cuts.add((sw2[0], sw2[1].get('0', sw2[2])))
                 else:
                     cuts.add((sw[0], sw[1].get('0', sw[2])))
